@@ -110,6 +110,15 @@ Theorem c25_tamper_covered : forall aesE aesD md5, aes_ok aesE aesD -> md5_ok md
 Proof. exact tamper_covered. Qed.
 Print Assumptions c25_tamper_covered.
 
+(* observation (DESIGN §7, not part of the property): only the covered BYTES are authenticated —
+   a packet with other fields but the same concatenation is accepted (see the example at the end) *)
+Theorem c25_same_sign_bytes_accepted : forall aesE md5 keys p p' k,
+  SendMsgKey aesE md5 p keys = Ok k ->
+  send_sign_bytes p' = send_sign_bytes p -> sp_msgkey p' = k ->
+  ValidateSendPacket aesE md5 p' keys = 0.
+Proof. exact same_sign_bytes_accepted. Qed.
+Print Assumptions c25_same_sign_bytes_accepted.
+
 (* the gateway adapter, reading a session that holds the client's keys (cached SessionCrypto or
    key/IV values), validates before it decrypts: it returns the decrypted payload exactly when
    ValidateSendPacket accepts *)
